@@ -260,7 +260,7 @@ func c23HTTPRequest(r c23Req, ri int, host string) (raw []byte, halfClose bool) 
 			if r.Fault == "not-array" {
 				body = c23Marshal(r.Enc, arr[0])
 			} else if r.Fault == "oversize" {
-				arr = append(arr, map[string]any{"data": map[string]any{"pad": strings.Repeat("x", 5_100_000)}})
+				arr = append(arr, map[string]any{"data": map[string]any{"vid": fmt.Sprintf("r%dpad", ri), "pad": strings.Repeat("x", 5_100_000)}})
 				body = c23Marshal(r.Enc, arr)
 			} else {
 				body = c23Marshal(r.Enc, arr)
@@ -698,6 +698,7 @@ func execC23(c c23Case) vkit.Result {
 		for i := range r.Events {
 			known[c23Vid(ri, i)] = true
 		}
+		known[fmt.Sprintf("r%dpad", ri)] = true // the padding entry of an oversize batch
 	}
 	// events without any client field can only stem from batch entries without
 	// data that were let through; the dataset (unique per request) says which request
@@ -777,7 +778,11 @@ func execC23(c c23Case) vkit.Result {
 			return l
 		}
 		if isErr {
-			if l := forwarded(func(c23Ev) bool { return true }); len(l) > 0 || emptyBy[ri] > 0 {
+			l := forwarded(func(c23Ev) bool { return true })
+			if pv := fmt.Sprintf("r%dpad", ri); count[pv] > 0 {
+				l = append(l, fmt.Sprintf("%s->%v", pv, vias[pv]))
+			}
+			if len(l) > 0 || emptyBy[ri] > 0 {
 				res.Violate("C23/error-status-but-forwarded/"+tag, "%s: answered %d %q, yet %d of its events were forwarded: %v (plus %d field-less events from entries without data)", where, out.status, rtClip(out.body, 200), len(l), l, emptyBy[ri])
 			}
 			continue
